@@ -69,6 +69,9 @@ SAME = [
 ]
 
 DIFFERENT = [
+    ("length before and after an in-place change are different terms",
+     "def f(seen, o):\n    n = len(seen)\n    seen.add(o)\n    if len(seen) == n:\n        raise ValueError\n    return seen",
+     "def f(seen, o):\n    seen.add(o)\n    raise ValueError"),
     ("off by one",
      "def f(a, b):\n    if a < 1 or a >= b:\n        return False\n    return True",
      "def f(a, b):\n    if a < 1 or a > b:\n        return False\n    return True"),
